@@ -63,11 +63,17 @@ func errClass(err error) string {
 	return strings.ReplaceAll(m, " ", "-")
 }
 
+// curStyle is the spelling of the scenario being run (a multi-statement UPDATE/DELETE is a class of its own)
+var curStyle atlab.Style
+
 func stmtSig(ss []atlab.Stmt) string {
 	s := ""
 	for i, st := range ss {
 		if i > 0 {
 			s += "+"
+		}
+		if curStyle.IsMulti(st) {
+			s += "m"
 		}
 		s += fmt.Sprintf("%s%d", st.Kind, len(st.Keys))
 	}
@@ -130,6 +136,10 @@ func main() {
 			schema = []*atlab.Schema{fam[0], fam[1], fam[5]}[(i+int(o.Seed))%3]
 		}
 		style := atlab.RandStyle(r)
+		if v := os.Getenv("STYLE_MULTI"); v != "" {
+			style.Multi = v == "1" // debugging aid: force / forbid the multi-statement spelling
+		}
+		curStyle = style
 		cls := fmt.Sprintf("schema=%s,lit=%v,explicit=%v", schema.Name, style.Literal, style.Explicit)
 		if sc.Shape != "" {
 			cls = fmt.Sprintf("schema=%s,shape=%s,place=%s,explicit=%v", schema.Name, sc.Shape, sc.Place, style.Explicit)
